@@ -331,7 +331,7 @@ class Evaluator:
         if D(rhs) == "in_list":
             items = [(True, self.expr(i, sc)) for i in rhs.children]
         elif D(rhs) == "in_select":
-            bag = self.select(rhs.children[0], sc.child())
+            bag = self.collapse_identical(self.select(rhs.children[0], sc.child()))
             items = [(g, vals[0]) for g, vals in bag.rows]
         elif D(rhs) == "in_table":
             bag = self.table_bag(str(rhs.children[0]), sc)
@@ -681,7 +681,30 @@ class Evaluator:
     def _row_eq(self, a, b):
         return bAnd(*[v_eq_payload(self.ctx, x, y) for x, y in zip(a, b)])
 
+    def collapse_identical(self, bag: Bag) -> Bag:
+        """Rows whose value terms are syntactically identical are one row under set semantics
+        (guard = disjunction).  Exact for DISTINCT / IN / EXISTS consumers; turns the quadratic
+        semantic de-duplication into one over the few genuinely different value terms."""
+        groups = {}
+        order = []
+        for g, vals in bag.rows:
+            key = []
+            for v in vals:
+                key.append((v.k, v.n.get_id() if is_sym(v.n) else v.n, v.v.get_id() if is_sym(v.v) else v.v))
+            key = tuple(key)
+            try:
+                hash(key)
+            except TypeError:
+                key = ("id", id(vals))
+            if key in groups:
+                groups[key][0].append(g)
+            else:
+                groups[key] = ([g], vals)
+                order.append(key)
+        return Bag(bag.cols, [(bOr(*groups[k][0]), groups[k][1]) for k in order])
+
     def distinct(self, bag: Bag) -> Bag:
+        bag = self.collapse_identical(bag)
         out = []
         for i, (g, vals) in enumerate(bag.rows):
             dup = bOr(*[bAnd(g2, self._row_eq(vals, v2)) for g2, v2 in bag.rows[:i]])
